@@ -1,6 +1,395 @@
-/- Line-protocol driver for engine `pager` — not built yet (stub). -/
+/-
+  Line-protocol driver for engine `pager` (C11), judge mode: the input is `case ==> observation`.
+
+  1. allocator sequences
+     case        ::= seq <pagesize> <cache> | op ; op ; …
+     op          ::= a | o | d <p> | x <p> | l <p> <q> | f | r
+     observation ::= obs <res> h=<first>:<last>:<total> w=<p1+p2…|-> ; …            (one entry per op)
+     A case in which d / x / l names a page id >= total_pages (of the model, at that moment) is malformed.
+     Verdict `ok` iff every entry is what the allocator model (`Pages.step`, with the defect flags given) produces:
+     result, header and the free-list walk (at most total_pages entries).
+
+  3. `iter <pagesize>`: observation `obs oks=<n> then=<a>,<b>,<c>`; `ok` iff `then=none,none,none`.
+
+  2. SQL histories
+     case        ::= sql <pagesize> <cache> | op ; op ; …       (ops are not interpreted here, only counted)
+     observation ::= obs <step> ; <step> ; …                     (one per op)
+     step        ::= r=<res> T=<total> F=<first>:<last> R=<root[c|d],…> [X=<n>] <page token>*
+                     (root mark c: the catalog row's creator was rolled back; d: its deleter was rolled back)
+     page token  ::= L<id>:<prev>:<next>:<slot>@<p1+p2…>,…   | I<id>:<prev>:<next>:<right>:<left>[@<p1+p2…>],…
+                   | O<id>:<next> | B<id>
+     Only tokens that changed since the previous step are listed (the driver keeps the page table).
+     N=<root,…> names the trees with numeric keys, `K<id>:<k1>,…` gives the keys of all cells of a page of such a tree.
+     Verdict `ok` iff after **every** step `checkOwnership` (proved sound in Thm/C11) accepts the dump, C10's `checkTree`
+     (proved sound in Thm/C10) accepts every tree with numeric keys, and between
+     consecutive steps the file did not grow while the free list of the earlier step was still there, untouched, at the head
+     of the later one (reuse before growth).
+-/
+import AxVerif.Model.Pages
+namespace AxVerif.PagerDriver
+open AxVerif.Pages AxVerif.BTree
+
+def parseFlags (flags : List String) : Defects :=
+  { deallocKeepsNext := flags.contains "deallocKeepsNext",
+    dividerSharesChain := flags.contains "dividerSharesChain" }
+
+def num (s : String) : Option Nat :=
+  if s.isEmpty || s.length > 7 || !s.all Char.isDigit then none else s.toNat?
+
+def allSome {α : Type} : List (Option α) → Option (List α)
+  | [] => some []
+  | none :: _ => none
+  | some a :: rest => (allSome rest).map (a :: ·)
+
+/-! ### allocator sequences -/
+
+inductive SOp where
+  | op (o : Pages.Op)
+  | reopen
+
+def parseSOp (s : String) : Option SOp :=
+  match s.splitOn " " with
+  | ["a"] => some (.op (.alloc false))
+  | ["o"] => some (.op (.alloc true))
+  | ["d", p] => (num p).map fun p => .op (.dealloc p false)
+  | ["x", p] => (num p).map fun p => .op (.dealloc p true)
+  | ["l", p, q] => match num p, num q with
+    | some p, some q => some (.op (.link p q))
+    | _, _ => none
+  | ["f"] => some (.op .flush)
+  | ["r"] => some .reopen
+  | _ => none
+
+def okParams (kind : String) (head : String) : Bool :=
+  match head.splitOn " " with
+  | [k, ps, c] =>
+    k == kind && (ps == "4096" || ps == "8192") &&
+      (match num c with | some c => 8 ≤ c && c ≤ 20000 | none => false)
+  | _ => false
+
+def joinIds (l : List Nat) : String :=
+  if l.isEmpty then "-" else "+".intercalate (l.map toString)
+
+def errStr : Err → String
+  | .invalidInput => "EInvalidInput"
+  | .invalidData => "EInvalidData"
+
+def outStr : Out → String
+  | .page p => s!"p{p}"
+  | .ok => "ok"
+  | .err e => errStr e
+
+def entryStr (s : Alloc) (o : Out) : String :=
+  s!"{outStr o} h={s.first}:{s.last}:{s.total} w={joinIds (freeList s)}"
+
+/-- the op names a page that does not exist: malformed case -/
+def outOfRange (s : Alloc) : SOp → Bool
+  | .op (.dealloc p _) => decide (s.total ≤ p)
+  | .op (.link p q) => decide (s.total ≤ p) || decide (s.total ≤ q)
+  | _ => false
+
+/-- model entries for the whole sequence; `none` = malformed -/
+def modelSeq (D : Defects) : Alloc → List SOp → Option (List String)
+  | _, [] => some []
+  | s, op :: ops =>
+    if outOfRange s op then none
+    else
+      let (s', o) := match op with
+        | .op o => step D s o
+        | .reopen => (flush s, Out.ok)
+      match modelSeq D s' ops with
+      | some rest => some (entryStr s' o :: rest)
+      | none => none
+
+def judgeSeqCase (D : Defects) (c gat : String) : String :=
+  let parsed : Option (List SOp) :=
+    match c.splitOn " | " with
+    | [head, body] =>
+      if okParams "seq" head then
+        match allSome ((body.splitOn " ; ").map parseSOp) with
+        | some ops => if ops.isEmpty || ops.length > 2000 then none else some ops
+        | none => none
+      else none
+    | _ => none
+  match parsed.bind (fun ops => modelSeq D Alloc.init ops) with
+  | none => if gat = "bad-op" then "ok" else "bad malformed case accepted"
+  | some want =>
+    if gat = "bad-op" then "bad well-formed case rejected"
+    else if !gat.startsWith "obs " then s!"bad implementation failed: {gat.take 60}"
+    else
+      let got := ((gat.drop 4).toString).splitOn " ; "
+      let rec go (i : Nat) : List String → List String → String
+        | w :: ws, g :: gs => if w = g then go (i + 1) ws gs else s!"bad op{i} model={w} impl={g}"
+        | [], [] => "ok"
+        | _, _ => s!"bad op{i} number of observations differs from the number of operations"
+      go 0 want got
+
+/-! ### SQL histories -/
+
+def parseChain (s : String) : Option (List Nat) :=
+  let s := if s.endsWith "!" then (s.dropEnd 1).toString else s
+  if s.isEmpty then some [] else allSome ((s.splitOn "+").map num)
+
+/-- `<slot>@<chain>` -/
+def parseLeafCell (s : String) : Option LeafCell :=
+  match s.splitOn "@" with
+  | [k, c] => match num k, parseChain c with
+    | some k, some ch => some { key := k, val := (0, 0), chain := ch }
+    | _, _ => none
+  | _ => none
+
+/-- `<left>[@<chain>]` -/
+def parseIntCell (s : String) : Option IntCell :=
+  match s.splitOn "@" with
+  | [l] => (num l).map fun l => { left := l, key := 0, chain := [] }
+  | [l, c] => match num l, parseChain c with
+    | some l, some ch => some { left := l, key := 0, chain := ch }
+    | _, _ => none
+  | _ => none
+
+def parseCells {α : Type} (f : String → Option α) (s : String) : Option (List α) :=
+  if s.isEmpty then some [] else allSome ((s.splitOn ",").map f)
+
+inductive PTok where
+  | btree (id : Nat) (p : Page)
+  | ovf (id : Nat) (next : Nat)
+  | bad (id : Nat)
+
+def parsePageTok (tok : String) : Option PTok :=
+  let kind := (tok.take 1).toString
+  let rest := (tok.drop 1).toString
+  match kind, rest.splitOn ":" with
+  | "L", [id, pr, nx, cells] =>
+    match num id, num pr, num nx, parseCells parseLeafCell cells with
+    | some id, some pr, some nx, some cs => some (.btree id (.leaf pr nx cs))
+    | _, _, _, _ => none
+  | "I", [id, pr, nx, r, cells] =>
+    match num id, num pr, num nx, num r, parseCells parseIntCell cells with
+    | some id, some pr, some nx, some r, some cs => some (.btree id (.interior pr nx r cs))
+    | _, _, _, _, _ => none
+  | "O", [id, nx] => match num id, num nx with
+    | some id, some nx => some (.ovf id nx)
+    | _, _ => none
+  | "B", [id] => (num id).map .bad
+  | _, _ => none
+
+structure Tab where
+  pages : Array (Option Page) := #[]
+  links : Array (Option Nat) := #[]
+  /-- keys of all cells of a page (numeric-key trees only) -/
+  keys : Array (Option (List Nat)) := #[]
+
+def grow {α : Type} (a : Array (Option α)) (id : Nat) : Array (Option α) :=
+  if id < a.size then a else a ++ Array.replicate (id + 1 - a.size) none
+
+def Tab.set (t : Tab) : PTok → Tab
+  | .btree id p => { t with pages := (grow t.pages id).setIfInBounds id (some p), links := (grow t.links id).setIfInBounds id none }
+  | .ovf id nx => { t with pages := (grow t.pages id).setIfInBounds id none, links := (grow t.links id).setIfInBounds id (some nx) }
+  | .bad id => { t with pages := (grow t.pages id).setIfInBounds id none, links := (grow t.links id).setIfInBounds id none }
+
+/-- `K<id>:<k1>,<k2>,…` or `K<id>:!` -/
+def parseKeyTok (tok : String) : Option (Nat × Option (List Nat)) :=
+  match ((tok.drop 1).toString).splitOn ":" with
+  | [id, ks] =>
+    match num id with
+    | none => none
+    | some id =>
+      if ks = "!" then some (id, none)
+      else if ks.isEmpty then some (id, some [])
+      else match allSome ((ks.splitOn ",").map String.toNat?) with
+        | some l => some (id, some l)
+        | none => none
+  | _ => none
+
+def Tab.setKeys (t : Tab) (id : Nat) (ks : Option (List Nat)) : Tab :=
+  { t with keys := (grow t.keys id).setIfInBounds id ks }
+
+/-- the page with the real keys put into its cells (`none` if the key list is missing or has the wrong length); the ownership
+    tokens list only the leaf cells that have an overflow chain, so leaf cells are rebuilt from the keys -/
+def keyedPage (t : Tab) (i : Nat) : Option Page :=
+  match (t.pages[i]?).join, (t.keys[i]?).join with
+  | some (.leaf pr nx cs), some ks =>
+    some (.leaf pr nx ((List.range ks.length).zip ks |>.map fun (slot, k) =>
+      { key := k, val := (0, 0), chain := ((cs.find? (·.key = slot)).map (·.chain)).getD [] }))
+  | some (.interior pr nx r cs), some ks =>
+    if cs.length = ks.length then some (.interior pr nx r ((cs.zip ks).map fun (c, k) => { c with key := k })) else none
+  | _, _ => none
+
+/-- C10's checker on the tree below `root`, with the real keys -/
+def orderCheck (t : Tab) (root : Nat) : Option String :=
+  let d : Dump := { root := root, fuel := t.pages.size + 1, page := fun i => if i = 0 then none else keyedPage t i }
+  if checkTree d then none
+  else
+    some (match treeOf d with
+      | none => "no-keys/no-tree"
+      | some tr =>
+        if !tr.bounded none none then "order/bound"
+        else if !tr.sepsAscending then "separators"
+        else if !tr.height.isSome then "depth"
+        else if !linksOk d 0 (tr.leafList.map (·.1)) then "links"
+        else if !levelsLinked d tr then "interior-links"
+        else if !tr.noEmptyLeaf then "empty-leaf"
+        else "other")
+
+def Tab.toDump (t : Tab) (total first last : Nat) (roots : List Nat) : FileDump :=
+  { total := total, firstFree := first, lastFree := last,
+    link := fun i => if i = 0 then none else (t.links[i]?).join,
+    page := fun i => if i = 0 then none else (t.pages[i]?).join,
+    roots := roots }
+
+def field (ws : List String) (pfx : String) : Option String :=
+  (ws.find? (·.startsWith pfx)).map (fun w => (w.drop pfx.length).toString)
+
+/-- first page (in id order) that has no owner / more than one, for the diagnostics -/
+def firstBadPage (owned : List Nat) (total : Nat) : String :=
+  let rec go (fuel p : Nat) : String :=
+    match fuel with
+    | 0 => "?"
+    | fuel + 1 =>
+      if p ≥ total then
+        (match owned.find? (fun x => x = 0 ∨ x ≥ total) with
+         | some x => s!"out-of-range {x}"
+         | none => "?")
+      else
+        let c := owned.count p
+        if c = 0 then s!"lost {p}" else if c > 1 then s!"shared {p}" else go fuel (p + 1)
+  go total 1
+
+/-- why `checkWith` rejects (diagnostics only) -/
+def whyNot (D : Defects) (f : FileDump) : String :=
+  match f.trees with
+  | none =>
+    let badRoot := f.roots.find? fun r => (treeOf (f.dumpOf r)).isNone
+    s!"tree {badRoot.getD 0}"
+  | some ts =>
+    match f.freeWalk with
+    | none => s!"free-list {f.firstFree}"
+    | some fl =>
+      let nodes := (ts.map T.ids).flatten
+      let chains := FileDump.chainsOf D f nodes
+      match chains.find? (fun c => !FileDump.chainLinked f.link c) with
+      | some c => s!"chain {c.headD 0}"
+      | none =>
+        if FileDump.lastD fl ≠ f.lastFree then s!"free-tail {f.lastFree}"
+        else firstBadPage (nodes ++ chains.flatten ++ fl) f.total
+
+structure QSt where
+  tab : Tab := {}
+  /-- non-gating remarks (C10's checkTree on the trees with numeric keys) -/
+  notes : List String := []
+  /-- free list and total of the previous step -/
+  prevFree : List Nat := []
+  prevTotal : Nat := 0
+  started : Bool := false
+
+def stepObs (D : Defects) (i : Nat) (st : QSt) (obs : String) : Except String QSt := do
+  let ws := (obs.splitOn " ").filter (· ≠ "")
+  let need (name : String) : Except String String :=
+    match field ws (name ++ "=") with
+    | some v => pure v
+    | none => throw s!"op{i} missing {name}="
+  let r ← need "r"
+  if r.startsWith "P" then throw s!"op{i} panic {r.drop 1}"
+  match field ws "D=" with
+  | some e => throw s!"op{i} dump failed {e}"
+  | none => pure ()
+  let total ← match num (← need "T") with
+    | some n => pure n
+    | none => throw s!"op{i} bad T="
+  let (first, last) ← match (← need "F").splitOn ":" with
+    | [a, b] => match num a, num b with
+      | some a, some b => pure (a, b)
+      | _, _ => throw s!"op{i} bad F="
+    | _ => throw s!"op{i} bad F="
+  -- a root may carry a mark: `c` = creator rolled back, `d` = deleter rolled back
+  let parseRoot (w : String) : Option (Nat × Bool) :=
+    if w.endsWith "d" then (num (w.dropEnd 1).toString).map (·, true)
+    else if w.endsWith "c" then (num (w.dropEnd 1).toString).map (·, false)
+    else (num w).map (·, false)
+  let roots ← match allSome (((← need "R").splitOn ",").map parseRoot) with
+    | some l => pure (l.map (·.1))
+    | none => throw s!"op{i} bad R="
+  let mut tab := st.tab
+  for w in ws do
+    let k := (w.take 1).toString
+    if (k == "L" || k == "I" || k == "O" || k == "B") && !w.contains '=' then
+      match parsePageTok w with
+      | some t => tab := tab.set t
+      | none => throw s!"op{i} malformed page token"
+    else if k == "K" && !w.contains '=' then
+      match parseKeyTok w with
+      | some (id, ks) => tab := tab.setKeys id ks
+      | none => throw s!"op{i} malformed key token"
+  let f := tab.toDump total first last roots
+  if !FileDump.checkWith D f then throw s!"op{i} {whyNot D f}"
+  let fl := (f.freeWalk).getD []
+  -- reuse before growth: the file must not grow while the free pages of the previous step are all still there, untouched, at
+  -- the head of the list (the allocator pops at the head and appends at the tail: a statement that extends the file has
+  -- emptied the list first)
+  if st.started && total > st.prevTotal && !st.prevFree.isEmpty && st.prevFree.isPrefixOf fl then
+    throw s!"op{i} grew-with-free-pages {st.prevFree.headD 0}"
+  if st.started && total < st.prevTotal then throw s!"op{i} total-pages-shrank {total}"
+  -- C10's checker (keys ordered, separators route, uniform depth, sibling links) on every tree with numeric keys
+  let numeric := match field ws "N=" with
+    | some v => (v.splitOn ",").filterMap num
+    | none => []
+  for r in numeric do
+    if roots.contains r then
+      match orderCheck tab r with
+      | some why => throw s!"op{i} checkTree {r} ({why})"
+      | none => pure ()
+  let notes := st.notes
+  pure { tab := tab, notes := notes, prevFree := fl, prevTotal := total, started := true }
+
+def judgeSqlCase (D : Defects) (c gat : String) : String :=
+  let nOps : Option Nat :=
+    match c.splitOn " | " with
+    | [head, body] =>
+      if okParams "sql" head then
+        let n := (body.splitOn " ; ").length
+        if n > 3000 then none else some n
+      else none
+    | _ => none
+  match nOps with
+  | none => if gat = "bad-op" then "ok" else "bad malformed case accepted"
+  | some n =>
+    if gat = "bad-op" then "ok"     -- the op grammar is the engine's business
+    else if !gat.startsWith "obs " then s!"bad implementation failed: {gat.take 60}"
+    else
+      let parts := ((gat.drop 4).toString).splitOn " ; "
+      let rec go (i : Nat) (st : QSt) : List String → String
+        | [] =>
+          if i = n then (if st.notes.isEmpty then "ok" else "ok ## checkTree: " ++ " ".intercalate st.notes)
+          else s!"bad number of observations ({i}) differs from the number of operations ({n})"
+        | o :: os =>
+          match stepObs D i st o with
+          | .ok st' => go (i + 1) st' os
+          | .error e => "bad " ++ e
+      go 0 {} parts
+
+def judge (flags : List String) (line : String) : String :=
+  let D := parseFlags flags
+  match line.splitOn " ==> " with
+  | [c, obs] =>
+    let gat := (obs.splitOn " ## ").headD ""
+    if c.startsWith "seq " then judgeSeqCase D c gat
+    else if c.startsWith "sql " then judgeSqlCase D c gat
+    else if c = "iter 4096" || c = "iter 8192" then
+      -- the position iterator must end once it has reported an error (KF-C11-iterator-repeats-error)
+      match (gat.splitOn " ") with
+      | ["obs", oks, thn] =>
+        if !oks.startsWith "oks=" then s!"bad unparsable observation"
+        else if thn = "then=none,none,none" then "ok"
+        else s!"bad iterator goes on after an error: {thn}"
+      | _ => s!"bad implementation failed: {gat.take 60}"
+    else if gat = "bad-op" then "ok" else "bad unknown case kind"
+  | _ => "bad-op"
+
+end AxVerif.PagerDriver
+
 namespace AxVerif.Drivers
 
-def pager (_flags : List String) (_line : String) : String := "unimplemented"
+def pager (flags : List String) (line : String) : String :=
+  AxVerif.PagerDriver.judge flags line.trimAscii.toString
 
 end AxVerif.Drivers
